@@ -138,6 +138,17 @@ func (c *storeComp) Gen(r *rand.Rand, idx int, emit func(string)) {
 	}
 	id := func() string { return Tok(pick(r, ids)) }
 	acct := func() string { return Tok(pick(r, storeAccts[:2+r.Intn(3)])) }
+	if idx%100 == 11 {
+		// a peer that is tracked while live, stops checking in, and crosses the expiry boundary while it is no
+		// longer reported (real time has to pass: the recorded check-in only ages)
+		emit(fmt.Sprintf("setnode a %s 1 geth ~ ~ 1", TTok(-118500*int64(time.Millisecond))))
+		emit("setnode b t:0 0 geth ~ ~ 1")
+		emit("unp b 1 peers=a")
+		emit("peers b")
+		emit("sleep 1700")
+		emit("unp b 2 peers=" + pick(r, []string{"", "", "zz", "b"}))
+		emit("peers b")
+	}
 	for i := 0; i < n; i++ {
 		k := r.Intn(100)
 		if i < 2+idx%3 {
@@ -264,6 +275,10 @@ func (c *storeComp) exec(t []string) (extra []string, out string, eff bool) {
 		}
 		c.keepNode(n)
 		return nil, "ok " + nodeStr(n), false
+	case "sleep":
+		ms, _ := strconv.Atoi(t[1])
+		time.Sleep(time.Duration(ms) * time.Millisecond)
+		return nil, "ok", false
 	case "unp":
 		id := store.NodeID(Untok(t[1]))
 		blk, _ := strconv.ParseUint(t[2], 10, 64)
